@@ -398,12 +398,16 @@ class FSM:
 
     def is_crew_done(self):
         # pylint: disable=protected-access
-        while dawgie.pl.farm._busy and self.waiting_on_crew():
+        while (
+            dawgie.pl.farm._busy or not self.is_pipeline_active()
+        ) and self.waiting_on_crew():
             time.sleep(0.2)
         return
 
     def is_doing_done(self):
-        while dawgie.pl.schedule.view_doing() and self.waiting_on_doing():
+        while (
+            dawgie.pl.schedule.view_doing() or not self.is_pipeline_active()
+        ) and self.waiting_on_doing():
             time.sleep(0.2)
         return
 
@@ -411,7 +415,9 @@ class FSM:
         return self.state == 'running' and self.transitioning == Status.active
 
     def is_todo_done(self):
-        while dawgie.pl.schedule.que and self.waiting_on_todo():
+        while (
+            dawgie.pl.schedule.que or not self.is_pipeline_active()
+        ) and self.waiting_on_todo():
             time.sleep(0.2)
         return
 
@@ -553,10 +559,15 @@ class FSM:
 
     def wait_for_crew(self):
         def done(*_args, **_kwds):
+            # the poller is gone whatever happens next, and the crew may have
+            # been given work between its last look and this callback
+            self.crew_thread = None
             if self.waiting_on_crew():
-                self.update_trigger()
-                self.crew_thread = None
-                pass
+                # pylint: disable=protected-access
+                if self.is_pipeline_active() and not dawgie.pl.farm._busy:
+                    self.update_trigger()
+                else:
+                    self.wait_for_crew()
             return
 
         log.info("Waiting for crew to be empty.")
@@ -579,10 +590,15 @@ class FSM:
 
     def wait_for_doing(self):
         def done(*_args, **_kwds):
+            self.doing_thread = None
             if self.waiting_on_doing():
-                self.update_trigger()
-                self.doing_thread = None
-                pass
+                if (
+                    self.is_pipeline_active()
+                    and not dawgie.pl.schedule.view_doing()
+                ):
+                    self.update_trigger()
+                else:
+                    self.wait_for_doing()
             return
 
         log.info("Waiting for doing to be empty.")
@@ -612,10 +628,12 @@ class FSM:
 
     def wait_for_todo(self):
         def done(*_args, **_kwds):
+            self.todo_thread = None
             if self.waiting_on_todo():
-                self.update_trigger()
-                self.todo_thread = None
-                pass
+                if self.is_pipeline_active() and not dawgie.pl.schedule.que:
+                    self.update_trigger()
+                else:
+                    self.wait_for_todo()
             return
 
         log.info("Waiting for todo, doing, and crew to be empty.")
